@@ -695,6 +695,8 @@ theorem InvA.step {s : Sys} (h : InvA s) (e : Ev) (ha : s.inAlphabet e = true) :
     exact h.frame rfl rfl rfl (frame_msgs_same _) (fun _ _ hx => Or.inl hx) (fun _ _ hx => Or.inl hx)
   | coordCommit tx => exact h.coordCommit tx
   | coordAbort tx => exact h.coordAbort tx
+  | forge tx sh v =>
+    exact h.frame rfl rfl rfl (frame_msgs_vote _ _ _ _) (fun _ _ hx => Or.inl hx) (fun _ _ hx => Or.inl hx)
   | cleanupStale sh t => simp [Sys.inAlphabet] at ha
   | recover sh t => simp [Sys.inAlphabet] at ha
 
@@ -746,6 +748,7 @@ theorem decided_mono (s : Sys) (e : Ev) (x : Nat × Bool) (hx : x ∈ s.decided)
       · split <;> exact hx
   | sweep => exact List.mem_append.2 (Or.inl hx)
   | tick d => exact hx
+  | forge tx sh v => exact hx
   | coordCommit tx =>
     simp only [Sys.step, Sys.stepR]
     split
